@@ -333,6 +333,7 @@ package vuego
 //@   modifies caches(v)
 //@ func (v *Vue) evalCondition(ctx, expr) (r, err)
 //@   modifies caches(v)
+//@   assert C13.uniform.vif: $arg1 == expr at "call evalConditionExpr"
 
 //@ func (v *Vue) evalElseIfChain(ctx, node, nodes, depth) (res, skip, err)
 //@   requires C11.depth.chain: depth <= maxEvalDepth
@@ -531,8 +532,14 @@ package vuego
 //@   ensures C01.vtext.keeps: len(n.Attr) >= old(len(n.Attr)) && forall i int :: 0 <= i && i < old(len(n.Attr)) ==> n.Attr[i] == old(n.Attr[i])
 //@ func (v *Vue) setStyleProperty(n, property, value)
 //@   modifies n.Attr, elems(n.Attr)
+// Uniform conditions (C13): every condition position goes through evalConditionExpr - v-if and v-else-if through
+// evalCondition/evalConditionExpr, v-show through the same function with the attribute text as it stands - and no
+// condition position evaluates on its own.
 //@ func (v *Vue) evalVShow(ctx, n) (err)
 //@   modifies n.Attr, elems(n.Attr), caches(v)
+//@   assert C13.uniform.vshow: $arg1 == vShowExpr at "call evalConditionExpr"
+//@   assert C13.uniform.vshow.only: false at "never call Eval"
+//@   assert C13.uniform.vshow.noresolve: false at "never call Resolve"
 //@ func (ss *SlotScope) GetSlot(name) (r)
 //@   pure
 //@   ensures r == ss.Slots[name]
